@@ -97,7 +97,9 @@ def reader(params):
     import csv, tempfile
     from panoptica.panoptica_statistics import Panoptica_Statistic
     bad = []
-    cells = [("", None), ("nan", None), ("inf", None), ("-inf", None), ("0.25", 0.25), ("-1.5", -1.5), ("2.5e-05", 2.5e-05), ("3e+16", 3e16), ("7", 7.0)]
+    cells = [("", None), ("nan", None), ("inf", None), ("-inf", None), ("0.25", 0.25), ("-1.5", -1.5), ("2.5e-05", 2.5e-05), ("3e+16", 3e16), ("7", 7.0),
+             # every spelling float() reads as not-a-number / infinite is "missing", however it is written
+             ("NaN", None), ("-nan", None), ("Inf", None), ("Infinity", None), ("-Infinity", None), ("+inf", None), ("1e999", None), ("-1e999", None), (" 0.5 ", 0.5), ("+2.0", 2.0)]
     for pos in range(4):
         for text, want in cells:
             row = ["1.5", "2.5", "3.5", "4.5"]
